@@ -717,6 +717,9 @@ def translate_trace(ops, out, core="rrt", info=None):
     tree = []          # serials of the motion states, in insertion order
     model_ops, impl = [], []
     pd_id = 0
+    # RRTConnect: the two trees, startTree_ (never reset by clear(): F333), the serial of PlannerInputStates::tempState_
+    bi = {"ts": [], "tg": [], "turn": True, "temp": None, "x": None, "r": None}
+    goal_bits = []
     for i, ln in enumerate(ops):
         o = out[i]
         main, _, evs = o.partition(" | ev=")
@@ -733,7 +736,13 @@ def translate_trace(ops, out, core="rrt", info=None):
         op = ln.split()[0]
         d = kv(main)
         log = []
-        for e in ([] if (core == "crrt" and op == "solve") else flt):
+        if core == "rrtc" and bi["temp"] is not None and ("F" + bi["temp"]) in flt:
+            # pis_.clear() (Planner::clear, a new problem definition) frees tempState_: not a state of the modelled planner
+            flt = [e for e in flt if e != "F" + bi["temp"]]
+            bi["temp"] = None
+        if core == "rrtc" and op in ("setpd", "setsg", "mutpd"):
+            goal_bits = ln.split()[3:5]
+        for e in ([] if (core in ("crrt", "rrtc") and op == "solve") else flt):
             if e[0] == "A":
                 log.append("A%d" % canon(e[1:]))
             elif e[0] == "F":
@@ -773,9 +782,17 @@ def translate_trace(ops, out, core="rrt", info=None):
             tree = []
             model_ops.append(op)
             impl.append("%s tree=0 log=%s" % (op, sort_frees(logs)))
+            if core == "rrtc":
+                bi["ts"], bi["tg"] = [], []
+                # RRTConnect::clear() leaves startTree_ as it is (F333); the model's clear() resets the core, so the flag the real
+                # planner continues with is handed to the driver
+                if not bi["turn"]:
+                    info["turn_not_reset"] = info.get("turn_not_reset", 0) + 1
+                model_ops.append("turn %d" % (1 if bi["turn"] else 0))
+                impl.append("turn")
         elif op == "getpd":
             model_ops.append("getpd")
-            impl.append("getpd v=%s goals=%s" % (d["v"], d["goals"]))
+            impl.append("getpd v=%s" % d["v"] if core == "rrtc" else "getpd v=%s goals=%s" % (d["v"], d["goals"]))
         elif op == "solve":
             k = int(ln.split()[1])
             # prologue: allocations before the first P event
@@ -795,7 +812,20 @@ def translate_trace(ops, out, core="rrt", info=None):
                 if len(pre) < 2:
                     raise ValueError("op %d: fewer than two allocations before the loop" % i)
                 tree += pre[:-2]
-                if core == "rrti":
+                if core == "rrtc":
+                    bi["ts"] += pre[:-2]
+                    bi["x"], bi["r"] = pre[-2], pre[-1]
+                    dl, flt2 = connect_draws(i, flt, j, bi, goal_bits)
+                    draws = dl
+                    ds = " ".join(dl)
+                    log = []
+                    for e in flt2:
+                        if e[0] == "A":
+                            log.append("A%d" % canon(e[1:]))
+                        elif e[0] == "F":
+                            log.append("F%d" % canon(e[1:]) if e[1:] != "?" else "F?")
+                    logs = frees_last(",".join(log) if log else "-")
+                elif core == "rrti":
                     # intermediate-states branch: M<near>:<valid>:<dstate>; a valid motion is followed by the allocations of
                     # getMotionStates (states[0] .. states[count+1]), the free of states[0] and ONE goal test on the last
                     # state; states[1..] become tree motions.  sat / dist are NOT handed to the model.
@@ -857,18 +887,27 @@ def translate_trace(ops, out, core="rrt", info=None):
                     logs = ",".join(log) if log else "-"
             else:
                 tree += pre
-                if core == "crrt":
+                if core == "rrtc":
+                    bi["ts"] += pre
+                if core in ("crrt", "rrtc"):
                     logs = ",".join("A%d" % canon(x) for x in pre) if pre else "-"
             model_ops.append(("solve %d %d %s" % (k, len(draws), ds)).strip())
             path = main.split(" path=")[1].strip()
-            impl.append("solve st=%s nsol=%s added=%s exact=%s approx=%s top=%s evals=%s tree=%d path=%s log=%s"
-                        % (d["st"], d["nsol"], d["added"], d["exact"], d["approx"], top_key(d["top"]), d["evals"], len(tree), path, logs))
+            if core == "rrtc":
+                impl.append("solve st=%s nsol=%s added=%s exact=%s approx=%s top=%s evals=%s tree=x path=%s log=%s ts=%d tg=%d"
+                            % (d["st"], d["nsol"], d["added"], d["exact"], d["approx"], top_key(d["top"]), d["evals"], path, logs,
+                               len(bi["ts"]), len(bi["tg"])))
+            else:
+                impl.append("solve st=%s nsol=%s added=%s exact=%s approx=%s top=%s evals=%s tree=%d path=%s log=%s"
+                            % (d["st"], d["nsol"], d["added"], d["exact"], d["approx"], top_key(d["top"]), d["evals"], len(tree), path, logs))
         else:
             raise ValueError("op %s not supported in lock-step" % op)
     # the end line: planner destructor
     main, _, evs = out[len(ops)].partition(" | ev=")
     log = []
     for e in evs.split():
+        if core == "rrtc" and bi["temp"] is not None and e == "F" + bi["temp"]:
+            continue
         if e[0] == "F":
             log.append("F%d" % canon(e[1:]))
         elif e[0] == "A":
@@ -892,10 +931,30 @@ def top_key(top):
     return "%s:%s:%s" % (f[0], f[1], f[5])      # approximate, difference, length (RRT sets no objective)
 
 
-def canon_model(lines):
+def canon_model(lines, bidir=False):
     """rename the model's allocation ids by first occurrence, like the harness side."""
     ren = {}
     out = []
+    if bidir:
+        # RRTConnect core: the driver appends ` ts=<n> tg=<n>` to solve / getpd lines; `tree=` (start tree + connection) is not
+        # compared, getpd is compared on the number of vertices, a solve's frees as a set
+        pre = []
+        for ln in lines:
+            m_ = re.match(r"^(.*) ts=(\d+) tg=(\d+)$", ln)
+            if m_ and ln.startswith("getpd"):
+                pre.append(("getpd v=%d" % (int(m_.group(2)) + int(m_.group(3))), ""))
+            elif m_:
+                pre.append((re.sub(r" tree=\d+ ", " tree=x ", m_.group(1)), " ts=%s tg=%s" % (m_.group(2), m_.group(3))))
+            else:
+                pre.append((ln, ""))
+        body = canon_model([a for a, _ in pre])
+        res = []
+        for ln, (_, tail) in zip(body, pre):
+            if ln.startswith("solve") and " log=" in ln:
+                a, _, lg = ln.rpartition(" log=")
+                ln = a + " log=" + frees_last(lg)
+            res.append(ln + tail)
+        return res
     for ln in lines:
         if " log=" not in ln:
             out.append(ln)
@@ -923,11 +982,11 @@ CONNECT_KINDS = {}
 # RRT: the goal test (GoalRegion::isSatisfied over GoalState::distanceGoal) is computed by the model ("rrtg"); RRTi: the
 # intermediate-states core (getMotionStates / validSegmentCount / interpolate in the model; the header gets the space's
 # longestValidSegment_ from the harness's setpd line)
-LOCKSTEP_CORE = {"RRT": ("rrtg", "proto core=rrtg"), "RRTi": ("rrti", "proto core=rrti"), "cRRTi": ("crrt", "proto core=crrt " + F(0.02))}
+LOCKSTEP_CORE = {"RRT": ("rrtg", "proto core=rrtg"), "RRTi": ("rrti", "proto core=rrti"), "RRTConnect": ("rrtc", "proto core=rrtc"), "cRRTi": ("crrt", "proto core=crrt " + F(0.02))}
 
 
 # (planner, harness seed, history, k): small fixed scripts run before the generated ones
-LOCK_CORPUS = [("RRTi", 5, "resume", 2), ("RRTi", 5, "clear-plain", 5), ("RRTi", 5, "mutpd", 13), ("RRTi", 77, "dup-start", 8),
+LOCK_CORPUS = [("RRTConnect", 5, "resume", 2), ("RRTConnect", 5, "clear-plain", 1), ("RRTConnect", 5, "swap", 5), ("RRTi", 5, "resume", 2), ("RRTi", 5, "clear-plain", 5), ("RRTi", 5, "mutpd", 13), ("RRTi", 77, "dup-start", 8),
                ("RRT", 5, "mutpd", 13), ("RRT", 5, "mutpd-clear", 5), ("RRT", 77, "setparam", 8), ("cRRTi", 5, "mutpd", 13)]
 
 
@@ -966,9 +1025,21 @@ def lockstep(ck, rn, seed, hname, k, K, ops, planner="RRT"):
     model, rc2, err2 = ck.run_bin(ck.driver(DRIVER), mscript)
     if rc2 != 0:
         raise RuntimeError("model driver failed: %s" % (err2 or "")[-500:])
-    model = canon_model(model)
+    model = canon_model(model, bidir=(core_name == "rrtc"))
     ck.count("lockstep:ops", len(model_ops))
     ck.count("lockstep:draws", sum(int(m.split()[2]) for m in model_ops if m.startswith("solve")))
+    if info.get("turn_not_reset"):
+        ck.count("lockstep:RRTConnect:clear-left-startTree_-false(F333)", info["turn_not_reset"])
+        with REPORT_LOCK:
+            first_f333 = "f333" not in REPORTED
+            REPORTED.add("f333")
+        if first_f333:
+            # clear() does not forget `startTree_`: the first iteration after clear() extends the GOAL tree when the previous
+            # solve ended after an odd number of iterations (the model's clear() resets the flag; the driver was told the real one)
+            _locked_report(ck, {"engine": "proto", "planner": "RRTConnect", "clause": "clear-keeps-startTree_", "ctx": "lockstep",
+                                "history": hname}, script=script, expected="clear() resets startTree_ (the next solve behaves like a first one)",
+                           observed={"model_script_with_injected_flag": [m_ for m_ in mscript if m_.startswith(("clear", "turn"))][:6]},
+                           engine="proto")
     d = ck.first_diff(impl, model)
     if d is not None:
         with REPORT_LOCK:
@@ -1117,6 +1188,7 @@ def run(ck):
     LOCK_CRASHES.clear()
     CTL_DRAW_KINDS.clear()
     INTERM_KINDS.clear()
+    CONNECT_KINDS.clear()
     stats = {"after": {}, "status": collections.Counter(), "motion-invalid": {}}
     hs = histories(ck.tier)
     workers = min(16, (os.cpu_count() or 4))
@@ -1213,12 +1285,14 @@ def run(ck):
                 lrest = [n for n in lhs if n not in ("resume", "clear-plain")]
                 for j, k in enumerate(ks):
                     if quick:
-                        # the two basic histories at every k, seven of the others rotating (every history is seen by every
+                        # the two basic histories at every k, five of the others rotating (four lock-stepped planners) (every history is seen by every
                         # planner and seed; the thorough tier runs all of them at every k)
-                        pick = ["resume", "clear-plain"] + [lrest[(j * 7 + i_ + (s % 7)) % len(lrest)] for i_ in range(7)]
+                        pick = ["resume", "clear-plain"] + [lrest[(j * 5 + i_ + (s % 7)) % len(lrest)] for i_ in range(5)]
                     else:
                         pick = list(lhs)
                     for hn in pick:
+                        if planner == "RRTConnect" and hn == "invalid-goal":
+                            continue        # the INVALID_GOAL exits of RRTConnect::solve are not in the model
                         ljobs.append((s, hn, k, kk + 40, lhs[hn](k, kk + 40), planner))
         # fixed lock-step scripts first (independent of VERIF_SEED): the situations the round-10 mutants were caught in
         fixed = []
@@ -1240,13 +1314,14 @@ def run(ck):
         ck.extra_cov["lockstep_agree"] = sum(1 for o in oks if o)
         ck.extra_cov["lockstep_control_draw_kinds"] = dict(CTL_DRAW_KINDS)
         ck.extra_cov["lockstep_intermediate_states_per_valid_motion"] = dict(sorted(INTERM_KINDS.items()))
-        for kd, n in list(CTL_DRAW_KINDS.items()) + list(INTERM_KINDS.items()):
+        ck.extra_cov["lockstep_rrtconnect_draw_kinds"] = dict(sorted(CONNECT_KINDS.items()))
+        for kd, n in list(CTL_DRAW_KINDS.items()) + list(INTERM_KINDS.items()) + list(CONNECT_KINDS.items()):
             ck.count("lockstep:draw-kind:" + kd, n)
     return 0
 
 
 def expand_corpus_op(o):
-    names = {"QA": QA, "QB": QB, "QSWAP": QSWAP, "QINV": QINV}
+    names = {"QA": QA, "QB": QB, "QSWAP": QSWAP, "QINV": QINV, "QGINV": QGINV}
     t = o.split()
     if t[0] in ("setpd", "setsg", "mutpd") and len(t) == 2 and t[1] in names:
         return q(t[0], names[t[1]])
